@@ -4,6 +4,7 @@ CONSTANTS FlawShallowListFreeze = FALSE
  FlawAppendSharesCapacity = FALSE
  FlawSortedAliasesOrdered = FALSE
  OnlyTargets = {}
+ DeepTargets = {}
  MaxMut = 3
  DeepVias = {"direct"}
  LastVias = {"alias", "arg", "compr", "loop"}
